@@ -36,7 +36,7 @@ var (
 
 // Commit stores the current contents of the index in a new commit along with
 // a log message from the user describing the changes.
-func (w *Worktree) Commit(msg string, opts *CommitOptions) (plumbing.Hash, error) {
+func (w *Worktree) Commit(msg string, opts *CommitOptions) (_ plumbing.Hash, err error) {
 	if trace.Performance.Enabled() {
 		start := time.Now()
 		defer func() {
@@ -49,6 +49,19 @@ func (w *Worktree) Commit(msg string, opts *CommitOptions) (plumbing.Hash, error
 	}
 
 	if opts.All {
+		// The tracked files are staged before the commit can be refused
+		// (nothing to commit, ...): a commit that fails leaves the index
+		// as it found it, as git's temporary index for commit -a does.
+		saved, ierr := w.r.Storer.Index()
+		if ierr != nil {
+			return plumbing.ZeroHash, ierr
+		}
+		defer func() {
+			if err != nil {
+				_ = w.r.Storer.SetIndex(saved)
+			}
+		}()
+
 		if err := w.autoAddModifiedAndDeleted(); err != nil {
 			return plumbing.ZeroHash, err
 		}
